@@ -479,6 +479,80 @@ theorem C19_treefn_fail_noskip {β : Type} {fb b nin nout : Nat} (hb : 0 < b) (h
   obtain ⟨herr, -⟩ := feed_spec hb hnout none (pre.map F) _ (Inv.init hb nout) hF
   rw [herr, online_eq hb hnout (Or.inl rfl) none hF]
 
+/-! ### functions with private state
+
+The user function is any Python callable: it may keep state between calls (a counter, a cache), so the
+result of a call may depend on the calls before it — including the failing ones (`treeFnGenS`, state
+`σ` threaded through the calls in order).  The statements above are the special case `σ = Unit`. -/
+
+/-- a function that ignores its state: the stateful chain is the stateless one -/
+theorem C19_treefn_gen_stateless {β : Type} (skip : Bool) (fb b nin nout : Nat)
+    (G : Batch α → Except ErrKind (Batch β)) (bs : List (Batch α)) :
+    treeFnGenS skip fb b nin nout (fun (u : Unit) x => (G x, u)) () bs
+      = treeFnGen skip fb b nin nout G bs := by
+  simp only [treeFnGenS, treeFnGen, callMapS_const]
+
+/-- `C19_treefn_skip` for ANY function with ANY state: with skipping on the output is the re-batching
+of the results of the calls that did not raise (the state runs through all calls, failing ones too). -/
+theorem C19_treefn_skip_stateful {β σ : Type} {fb b nin nout : Nat} (hnin : 0 < nin)
+    (G : σ → Batch α → Except ErrKind (Batch β) × σ) (s0 : σ) {bs : List (Batch α)}
+    (hwf : WF nin bs) :
+    treeFnGenS true fb b nin nout G s0 bs
+      = run b nout none (okCallsS G s0 (run fb nin none bs).out) := by
+  simp only [treeFnGenS, pulls_of_wf hnin hwf, if_true, ignoreErr_callMapS_items, runEv_items]
+
+/-- `C19_treefn_skip_carry` for ANY function with ANY state: the groups are `pre ++ x :: post`, the
+call on `x` (made in the state the calls on `pre` left) raises and leaves state `s'`.  Then the output
+is the re-batching of (results of `pre`) ++ (results of `post` computed from `s'`): nothing yielded
+before is retracted, and every row returned by a successful call before the failure — the carried
+ones included — is emitted, followed by every row of the successful calls after it. -/
+theorem C19_treefn_skip_carry_stateful {β σ : Type} {fb b nin nout : Nat} (hb : 0 < b)
+    (hnin : 0 < nin) (hnout : 0 < nout) (G : σ → Batch α → Except ErrKind (Batch β) × σ) (s0 : σ)
+    {bs : List (Batch α)} (hwf : WF nin bs) {pre post : List (Batch α)} {x : Batch α} {e : ErrKind}
+    (hgroups : (run fb nin none bs).out = pre ++ x :: post)
+    (hx : (G (stateAfter G s0 pre) x).1 = .error e)
+    (hG : ∀ s y o, (G s y).1 = .ok o → Rect nout (nrows o) o) :
+    treeFnGenS true fb b nin nout G s0 bs
+      = run b nout none
+          (okCallsS G s0 pre ++ okCallsS G (G (stateAfter G s0 pre) x).2 post) ∧
+    (treeFnGenS true fb b nin nout G s0 bs).err = none ∧
+    online b nout none (okCallsS G s0 pre) <+: (treeFnGenS true fb b nin nout G s0 bs).out ∧
+    ∀ c, c < nout → colConcat (treeFnGenS true fb b nin nout G s0 bs).out c
+        = colConcat (okCallsS G s0 pre) c
+            ++ colConcat (okCallsS G (G (stateAfter G s0 pre) x).2 post) c := by
+  have hwfok : ∀ (xs : List (Batch α)) (s : σ), WF nout (okCallsS G s xs) := by
+    intro xs
+    induction xs with
+    | nil => intro s o ho; simp [okCallsS] at ho
+    | cons y xs ih =>
+      intro s
+      simp only [okCallsS]
+      rcases hGy : G s y with ⟨r, s'⟩
+      cases r with
+      | ok o =>
+        simp only
+        rw [WF.cons]
+        exact ⟨hG s y o (by rw [hGy]), ih s'⟩
+      | error e' => exact ih s'
+  have heq : treeFnGenS true fb b nin nout G s0 bs
+      = run b nout none (okCallsS G s0 pre ++ okCallsS G (G (stateAfter G s0 pre) x).2 post) := by
+    rw [C19_treefn_skip_stateful hnin G s0 hwf, hgroups, okCallsS_append]
+    congr 2
+    simp only [okCallsS]
+    rcases hGx : G (stateAfter G s0 pre) x with ⟨r, s'⟩
+    rw [hGx] at hx
+    simp only at hx
+    subst hx
+    rfl
+  have hwfall := WF.append.mpr ⟨hwfok pre s0, hwfok post (G (stateAfter G s0 pre) x).2⟩
+  refine ⟨heq, ?_, ?_, ?_⟩
+  · rw [heq]; exact C19_no_error hb hnout (Or.inl rfl) none hwfall
+  · rw [heq]; exact (C19_online hb hnout (Or.inl rfl) none hwfall).1
+  · intro c hc
+    rw [heq, C19_conserve hb hnout (Or.inl rfl) none hwfall hc, colConcat_append]
+    simp [padding]
+
+
 /-! ## Non-vacuity and sanity tests (concrete instances, by `decide`; `+kernel` because `sliced`
 is defined by well-founded recursion) -/
 
@@ -545,5 +619,13 @@ example : treeFnGen false 2 3 2 2 sampleFailing sampleStream = ⟨[], some .valu
 -- ... skipping off with batch_size 1: rows 0, 1 were delivered before the error
 example : treeFnGen false 2 1 2 2 sampleFailing sampleStream =
     ⟨[[⟨.list, [0]⟩, ⟨.array, [10]⟩], [⟨.list, [1]⟩, ⟨.array, [11]⟩]], some .value⟩ := by decide +kernel
+
+-- a function with state (`countingOn`: the k-th call, failing ones counted, adds 100·k to every element): the call on
+-- [2,3] is call 1 and raises; the call on [4,5] is call 2 — its rows come out as 204/214, 205/215 behind the carried rows
+example : treeFnGenS true 2 3 2 2
+      (countingOn (fun b => (b.headD default).rows.contains 2) (fun k r => [r.map (· + 100 * k)]) [.list, .array]) 0
+      sampleStream =
+    ⟨[[⟨.list, [0, 1, 204]⟩, ⟨.array, [10, 11, 214]⟩], [⟨.list, [205]⟩, ⟨.array, [215]⟩]], none⟩ := by
+  decide +kernel
 
 end MlModel.C19
